@@ -4,6 +4,7 @@ import WS.Model.Server
 import WS.Model.Client
 import WS.Model.Mask
 import WS.Model.Trunc
+import WS.Model.Plan
 /-
   Line-protocol driver for the handshake decision functions and the pure helpers.
 -/
@@ -117,6 +118,13 @@ def hsStep (ts : List String) : Option String :=
     match (fromHex key).bind Key.ofBytes, pos.toNat?, a.toNat?, fromHex hex with
     | some k, some p, some a, some b => let (o, np) := maskBytesGo k p a b; some (toHex o ++ " " ++ toString np)
     | _, _, _, _ => none
+  | "nego" :: _ => some "ok"
+  | "plan" :: _ =>
+    let cfg : Plan.Cfg := { server := kvBool ts "server", timeout := kvBool ts "timeout", proxy := kvBool ts "proxy" }
+    let o := Plan.exec (Plan.plan cfg) (kvNat ts "fail")
+    let nm : Plan.HOp → String
+      | .sd0 => "SD:0" | .sdD => "SD:D" | .swd0 => "SWD:0" | .swdD => "SWD:D" | .w => "W" | .r => "R" | .c => "C"
+    some s!"ops={",".intercalate (o.ops.map nm)} returned={if o.returned then 1 else 0} closed={if o.closed then 1 else 0}"
   | "trunc" :: _ =>
     let w := (kvHexList ts "chunks").foldl Trunc.write {}
     some (s!"fwd={hexList w.out} held={toHex w.p}")
